@@ -265,7 +265,15 @@ def run_case(case, res):
                     have = [h for h in have if sum(len(v) for k, v in before.items() if k[3] == fam and k[4] == h and k[2] != "default-style") == 1]
                     if have:
                         op["name"] = have[0]
-                    elif (epart, econt) == ("styles.xml", "automatic-styles") and fam not in ("master-page", "page-layout", "font-face") and not any(k[3] == fam and k[4] == op["name"] for k in before):
+                    elif (
+                        (epart, econt) == ("styles.xml", "automatic-styles")
+                        and fam not in ("master-page", "page-layout", "font-face")
+                        and not any(k[3] == fam and k[4] == op["name"] for k in before)
+                        # only where the insertion goes to the same part (a common style) and the family is written as
+                        # style:style: an automatic style of styles.xml is in another scope than those of content.xml
+                        and expected_place(fam, automatic, default)[0] == "styles.xml"
+                        and make_style(op).tag == "style:style"
+                    ):
                         proot = doc.styles.root._Element__element
                         cont_el = proot.find("{%s}automatic-styles" % OFFICE)
                         if cont_el is not None:
